@@ -170,7 +170,9 @@ func runC02(c *Ctx) {
 	if c.Thorough {
 		nf = 140
 	}
-	sfams := schedFamilyPrograms(c, append(schedPassthroughFamily(famRng, nf), schedKeysetFamily(famRng, nf/2)...))
+	fams := append(schedPassthroughFamily(famRng, nf), schedKeysetFamily(famRng, nf/2)...)
+	fams = append(fams, schedCoMappedFamily(famRng, 8)...)
+	sfams := schedFamilyPrograms(c, fams)
 	r.Histogram["sched_family_programs"] = len(sfams)
 	progs = append(progs, sfams...)
 	cases := runCases(c, progs, 2, TASpec{})
@@ -319,7 +321,9 @@ func runC03(c *Ctx) {
 		nf = 200
 	}
 	famRng := rand.New(rand.NewSource(c.Seed ^ 0x5c03))
-	sfams := schedFamilyPrograms(c, append(schedKeysetFamily(famRng, nf), schedPassthroughFamily(famRng, nf/2)...))
+	fams := append(schedKeysetFamily(famRng, nf), schedPassthroughFamily(famRng, nf/2)...)
+	fams = append(fams, schedCoMappedFamily(famRng, 8)...)
+	sfams := schedFamilyPrograms(c, fams)
 	r.Histogram["sched_family_programs"] = len(sfams)
 	progs = append(progs, sfams...)
 	cases := runCases(c, progs, 2, TASpec{})
